@@ -14,12 +14,14 @@ Transcribed source (pinned tree):
       return <noop>
 * pyatv/core/facade.py:652 `super().__init__(max_calls=1)`                → `Cfg.maxCalls` (value from Gen)
 * pyatv/core/facade.py:880-886 `state_was_updated → self.close()`         → continuation `k` of `reportWith`
-* pyatv/core/facade.py:744-761 `FacadeAppleTV.close`                      → `closeF`
+* pyatv/core/facade.py:744-764 `FacadeAppleTV.close` (as repaired by
+  "fix: FacadeAppleTV.close blocks the public interface before closing the protocols") → `closeF`
       if self._pending_tasks is not None: return self._pending_tasks
       self.push_updater.stop()                 -- two guarded members: AppleTV.push_updater, PushUpdater.stop
       self._pending_tasks = set(); add(create_task(session_manager.close()))
+      self._block_everything()
       for setup_data in self._protocol_handlers.values(): self._pending_tasks.update(setup_data.close())
-      self._block_everything(); return self._pending_tasks
+      return self._pending_tasks
 * pyatv/core/facade.py:677-685 `_shield_everything`, `_block_everything`  → `init`, `blockFrom`
 * pyatv/support/shield.py:44-75 `shield`, `block`, `is_blocking`, `guard` → `Shield`, `blockFrom`, `isBlocking`, `apiBlocked`
 * pyatv/core/facade.py:578-593 `FacadePushUpdater.start/stop`             → `pushStart`, `pushStop`
@@ -29,6 +31,15 @@ Transcribed source (pinned tree):
   synchronously from inside `close()`; MRP/Companion/AirPlay report when the transport they
   close calls `connection_lost`).  A protocol's `close()` is therefore modelled as emitting any
   list of reports re-entrantly (`Proto.onClose`), the adversarial reading.
+
+User code runs inside the library: the DeviceListener's handler is invoked by whoever
+evaluated `listener.connection_lost(exc)` — a protocol callback, or a protocol's `close()` in
+the middle of `FacadeAppleTV.close()`.  What the handler does is part of the event (`Beh`): it
+records the call, makes public-API calls and `close()` calls from inside the callback
+(`InEv`), and may then raise.  A raised exception propagates like in Python (`St.flying`):
+out of the protocol's `close()`, out of the `for` loop, out of `FacadeAppleTV.close()`, to the
+user who called it (or to the protocol callback that reported).  PushListener handlers
+likewise (`Ev.push i b`).
 
 `close()` re-enters itself through `setup_data.close() → report → state_was_updated →
 close()`; the model uses fuel for that recursion and records running out of fuel — like any
@@ -58,10 +69,24 @@ inductive Listener
   | dead
   deriving DecidableEq, Repr
 
+/-- a call user code makes from inside one of its listener callbacks -/
+inductive InEv
+  | api (m : Nat)     -- public member number m, on the object the user holds
+  | close             -- atv.close()
+  deriving DecidableEq, Repr
+
+/-- behaviour of a user handler when it is invoked: the call is recorded, `inner` is performed
+    (each call's outcome caught and recorded), then the handler raises if `raises` -/
+structure Beh where
+  inner : List InEv
+  raises : Bool
+  deriving DecidableEq, Repr
+
 /-- a connected protocol: what its `SetupData.close()` does -/
 structure Proto where
-  onClose : List Kind   -- reports it emits, synchronously, while closing
-  tasks : Nat           -- size of the task set it returns
+  onClose : List (Kind × Beh)   -- reports it emits, synchronously, while closing (with what the
+                                -- user's handler would do if that report is the one delivered)
+  tasks : Nat                   -- size of the task set it returns
   deriving Repr
 
 structure Cfg where
@@ -75,6 +100,18 @@ structure Cfg where
 /-- `__shield_is_blocking` of one object: attribute missing / False / True -/
 abbrev Shield := Option Bool
 
+inductive Out
+  | none                          -- report: nothing is returned
+  | set (id : Nat) (n : Nat)      -- close(): identity and size of the returned set
+  | raised                        -- close() raised an error of its own
+  | userRaised                    -- close() propagated the exception of the user's handler
+  | escaped                       -- the user's handler's exception reached the reporting protocol
+  | blocked                       -- BlockedStateError
+  | pass                          -- the guard let the call through
+  | badMember
+  | delivered (b : Bool)          -- did the user's PushListener receive the update
+  deriving DecidableEq, Repr
+
 structure St where
   callsMade : Nat             -- StateProducer.calls_made
   pending : Option Nat        -- identity of `_pending_tasks` (`none` until closed)
@@ -85,14 +122,16 @@ structure St where
   pushOn : Bool               -- protocol push updaters forward to the facade (`start()`ed, not stopped)
   notified : List Report      -- calls the user's DeviceListener received, in order
   reports : List Report       -- every report made so far (history)
-  raised : Bool               -- an exception escaped from `close()` (or the model ran out of fuel)
+  inner : List (Bool × InEv × Out)  -- calls made from inside callbacks (flag: DeviceListener callback) and what they saw
+  raised : Bool               -- an error of the library's own escaped from `close()` (or the model ran out of fuel)
+  flying : Bool               -- an exception raised by user code is propagating
   deriving Repr
 
 /-- after `__init__` (`_shield_everything`) and `connect()` -/
 def init (cfg : Cfg) : St :=
   { callsMade := 0, pending := none, tasks := 0, nextId := 0, closeLog := [],
     shield := List.replicate cfg.nObjs (some false), pushOn := false,
-    notified := [], reports := [], raised := false }
+    notified := [], reports := [], inner := [], raised := false, flying := false }
 
 /-- `shield.is_blocking(obj)` -/
 def isBlocking (s : St) (o : Nat) : Bool := s.shield[o]? == some (some true)
@@ -108,25 +147,69 @@ def blockEverything (s : St) : St :=
   let r := blockFrom s.shield
   { s with shield := r.1, raised := s.raised || r.2 }
 
+/-- does calling member `m` raise BlockedStateError now? -/
+def apiBlocked (cfg : Cfg) (s : St) (m : Row) : Bool :=
+  match m.guard with
+  | .guarded => isBlocking s m.obj
+  | .derived via => via.any fun j =>
+      match cfg.members[j]? with
+      | some mj => mj.guard == .guarded && isBlocking s mj.obj
+      | none => false
+  | .unguarded => false
+  | .closeExempt => false
+
+def apiOut (cfg : Cfg) (s : St) (m : Nat) : Out :=
+  match cfg.members[m]? with
+  | some row => if apiBlocked cfg s row then .blocked else .pass
+  | none => .badMember
+
+/-- what `close()` hands back once it has returned normally -/
+def closeOut (s : St) : Out :=
+  match s.pending with
+  | some id => if s.raised then .raised else .set id s.tasks
+  | none => .raised
+
+/-- the calls a handler makes from inside its callback; `k` is `FacadeAppleTV.close`.  Each
+    call's outcome (also an exception) is caught by the handler and recorded. -/
+def runInner (cfg : Cfg) (k : St → St) (dl : Bool) : St → List InEv → St
+  | s, [] => s
+  | s, .api m :: es =>
+    runInner cfg k dl { s with inner := s.inner ++ [(dl, .api m, apiOut cfg s m)] } es
+  | s, .close :: es =>
+    let s' := k s
+    if s'.flying then
+      runInner cfg k dl { s' with flying := false, inner := s'.inner ++ [(dl, .close, .userRaised)] } es
+    else
+      runInner cfg k dl { s' with inner := s'.inner ++ [(dl, .close, closeOut s')] } es
+
+/-- the user's DeviceListener handler is invoked for report `r` -/
+def handler (cfg : Cfg) (k : St → St) (s : St) (r : Report) (b : Beh) : St :=
+  let s := { s with notified := s.notified ++ [r] }
+  let s := runInner cfg k true s b.inner
+  if b.raises then { s with flying := true } else s
+
 /-- `_ListenerProxy.__getattr__(attr)` followed by the call of what it returned, for a report
     `r`; `k` is `producer.state_was_updated` (= `FacadeAppleTV.close`, result dropped). -/
-def reportWith (cfg : Cfg) (k : St → St) (s : St) (r : Report) : St :=
+def reportWith (cfg : Cfg) (k : St → St) (s : St) (r : Report) (b : Beh) : St :=
   let s := { s with reports := s.reports ++ [r], callsMade := s.callsMade + 1 }
   if cfg.maxCalls ≠ 0 ∧ s.callsMade > cfg.maxCalls then s
   else match cfg.listener with
     | .none => k s
-    | .alive => let s := k s; { s with notified := s.notified ++ [r] }
+    | .alive => let s := k s; if s.flying then s else handler cfg k s r b
     | .dead => s
 
 /-- the `for setup_data in self._protocol_handlers.values()` loop of `close()`, from protocol
-    index `i` on -/
+    index `i` on; an exception in flight leaves the protocol's `close()` and the loop -/
 def closeProtos (cfg : Cfg) (k : St → St) : Nat → List Proto → St → St
   | _, [], s => s
   | i, p :: ps, s =>
     let s := { s with closeLog := s.closeLog ++ [i] }
-    let s := p.onClose.foldl (fun s kd => reportWith cfg k s ⟨i, kd⟩) s
-    let s := { s with tasks := s.tasks + p.tasks }
-    closeProtos cfg k (i + 1) ps s
+    let s := p.onClose.foldl
+      (fun s rb => if s.flying then s else reportWith cfg k s ⟨i, rb.1⟩ rb.2) s
+    if s.flying then s
+    else
+      let s := { s with tasks := s.tasks + p.tasks }
+      closeProtos cfg k (i + 1) ps s
 
 /-- `FacadeAppleTV.close()` (the returned set is `pending` of the result) -/
 def closeF (cfg : Cfg) : Nat → St → St
@@ -140,58 +223,38 @@ def closeF (cfg : Cfg) : Nat → St → St
       else
         let s := { s with pushOn := false }
         let s := { s with pending := some s.nextId, nextId := s.nextId + 1, tasks := 1 }
-        let s := closeProtos cfg (closeF cfg fuel) 0 cfg.protos s
-        blockEverything s
+        let s := blockEverything s
+        if s.raised then s else closeProtos cfg (closeF cfg fuel) 0 cfg.protos s
 
 /-- fuel used by the top-level entry points (2 levels of `close` are ever needed) -/
-def topFuel : Nat := 2
-
-/-- does calling member `m` raise BlockedStateError now? -/
-def apiBlocked (cfg : Cfg) (s : St) (m : Row) : Bool :=
-  match m.guard with
-  | .guarded => isBlocking s m.obj
-  | .derived via => via.any fun j =>
-      match cfg.members[j]? with
-      | some mj => mj.guard == .guarded && isBlocking s mj.obj
-      | none => false
-  | .unguarded => false
-  | .closeExempt => false
+abbrev topFuel : Nat := 2
 
 inductive Ev
-  | report (i : Nat) (k : Kind)   -- protocol i: core.device_listener.listener.connection_lost/closed
+  | report (i : Nat) (k : Kind) (b : Beh)  -- protocol i: core.device_listener.listener.connection_lost/closed;
+                                           -- b = what the user's handler does if it is invoked
   | userClose                     -- atv.close()
   | api (m : Nat)                 -- a call of public member number m on the object the user holds
   | pushStart                     -- push_updater.start() on the held FacadePushUpdater
   | pushStop                      -- push_updater.stop()
-  | push (i : Nat)                -- protocol i's push updater posts an update
-  deriving DecidableEq, Repr
-
-inductive Out
-  | none                          -- report: nothing is returned
-  | set (id : Nat) (n : Nat)      -- close(): identity and size of the returned set
-  | raised                        -- close() raised
-  | blocked                       -- BlockedStateError
-  | pass                          -- the guard let the call through
-  | badMember
-  | delivered (b : Bool)          -- did the user's PushListener receive the update
+  | push (i : Nat) (b : Beh)      -- protocol i's push updater posts an update; b = the PushListener handler
   deriving DecidableEq, Repr
 
 def step (cfg : Cfg) (s : St) : Ev → St × Out
-  | .report i k => (reportWith cfg (closeF cfg topFuel) s ⟨i, k⟩, .none)
+  | .report i k b =>
+    let s' := reportWith cfg (closeF cfg topFuel) s ⟨i, k⟩ b
+    if s'.flying then ({ s' with flying := false }, .escaped) else (s', .none)
   | .userClose =>
     let s' := closeF cfg topFuel s
-    match s'.pending with
-    | some id => if s'.raised then (s', .raised) else (s', .set id s'.tasks)
-    | none => (s', .raised)
-  | .api m =>
-    match cfg.members[m]? with
-    | some row => (s, if apiBlocked cfg s row then .blocked else .pass)
-    | none => (s, .badMember)
+    if s'.flying then ({ s' with flying := false }, .userRaised) else (s', closeOut s')
+  | .api m => (s, apiOut cfg s m)
   | .pushStart =>
     if isBlocking s cfg.pushObj then (s, .blocked) else ({ s with pushOn := true }, .pass)
   | .pushStop =>
     if isBlocking s cfg.pushObj then (s, .blocked) else ({ s with pushOn := false }, .pass)
-  | .push i => (s, .delivered (s.pushOn && i == 0))
+  | .push i b =>
+    -- an exception of the PushListener handler ends in the event loop's exception handler
+    if s.pushOn && i == 0 then (runInner cfg (closeF cfg topFuel) false s b.inner, .delivered true)
+    else (s, .delivered false)
 
 def run (cfg : Cfg) (s : St) : List Ev → St
   | [] => s
